@@ -1,12 +1,13 @@
 """C02 - type soundness: accepted programs never hit dynamic type errors.
 
-SyltSound (TLA+) defines the universe of ALMOST-WELL-TYPED programs: a menu of 24 perturbation kinds (P1..P24: literal of
+SyltSound (TLA+) defines the universe of ALMOST-WELL-TYPED programs: a menu of 27 perturbation kinds (P1..P27: literal of
 another type, operator of another class, argument dropped/added, declaration moved into a branch with the use left
 after it, use before declaration, call of a non-function, missing field, function parameter at two types, branches of
 different types, void as value, variant payloads, list element types, field / variable assigned another type, global
 order, case bindings, annotations, return types, tuple index, conditions, missing return, a value of a similar user type,
-an ill-typed operand routed through an un-annotated parameter by provenance, a name used outside its region) applied at EVERY applicable
-node of well-typed bases: 17 dedicated programs (one of them perturbed inside the common Prelude too), SyltGen's templates in their harness contexts, and (thorough) a seeded
+an ill-typed operand routed through an un-annotated parameter by provenance, a name used outside its region, a global
+initialiser depending on itself through a call, two-point operator / compound-assignment perturbations) applied at EVERY applicable
+node of well-typed bases: 18 dedicated programs (one of them perturbed inside the common Prelude too), SyltGen's templates in their harness contexts, and (thorough) a seeded
 shard of the pairwise nesting.  TLC (MC_Sound, MODE=emit) enumerates (base, site, alternative) and prints the programs.
 The recorder (c02) compiles each with the real compiler and runs ONLY the accepted ones in minilua, logging the run.
 TLC (Trace_Sound) re-derives every case from its id, validates the recorded events against SyltSound's outcome
@@ -112,10 +113,10 @@ def judge(verdicts, cases, trace, detail, rejects, prelude):
 
 
 def spec_selftest(wd, ev):
-    r0 = vlib.tlc("MC_Sound", cfg="MC_Sound.cfg", wd=wd, env={"MODE": "protocol"}, workers=2, timeout=300,
+    r0 = vlib.tlc("MC_Sound", cfg="MC_Sound.cfg", wd=wd, env={"MODE": "protocol"}, workers=2, timeout=300, coverage=False,
                   out_file=os.path.join(wd, "tlc-protocol.out"))
     vlib.require_tlc_ok(r0, "SyltSound outcome protocol (free model)")
-    r1 = vlib.tlc("MC_Sound", cfg="MC_Sound.cfg", wd=wd, env={"MODE": "protocol", "FAULTY": "1"}, workers=2, timeout=300,
+    r1 = vlib.tlc("MC_Sound", cfg="MC_Sound.cfg", wd=wd, env={"MODE": "protocol", "FAULTY": "1"}, workers=2, timeout=300, coverage=False,
                   out_file=os.path.join(wd, "tlc-protocol-faulty.out"))
     if r1.invariant_violated != "SndSound":
         vlib.tool_error("spec self-test: SndSound is not violated when a DynTypeError terminal is admitted (vacuous invariant?)")
@@ -265,7 +266,7 @@ def run(ctx):
            trace_actions_records=action_counts, reference_run_status=spec_status,
            emit_wall_s=round(r.wall_s, 1), validate_wall_s=round(v.wall_s, 1),
            negative_controls_rejected=neg_total, known_findings_hit=verdicts.known_hits, exhaustive=(tier == "thorough" and False),
-           rule=universe_rule + "; every alternative of the 24-kind menu at every node; non-trivial = the perturbed program was ACCEPTED by the compiler "
+           rule=universe_rule + "; every alternative of the 27-kind menu (two-point kinds P26/P27 dense in D:twopoint, every 20th combination elsewhere) at every node; non-trivial = the perturbed program was ACCEPTED by the compiler "
                 "and run to a terminal event (the property only speaks about those); distinct by AST hash",
            samples=samples)
     ev.assume("minilua stands in for Lua 5.3; its error classes (arithmetic / call / index / compare / concat / bad argument) follow the reference manual's messages",
